@@ -76,6 +76,27 @@ def daemon_cover(rep, name, c):
     return bfile, len(behs)
 
 
+def replay_control(rep, bfile):
+    """The lock-step binding is not vacuous: one behaviour of the cover with ONE expected published bound altered must
+    be reported by the harness (the real updater does not publish the altered value)."""
+    with open(bfile) as f:
+        for line in f:
+            b = json.loads(line)
+            idx = [i for i, st in enumerate(b["steps"]) if st.get("a") == "UpdRecv" and st.get("exp", {}).get("measured") and st["exp"].get("pub", {}).get("bound", 0) > 0]
+            if not idx:
+                continue
+            b["steps"][idx[0]]["exp"]["pub"]["bound"] += 1
+            p = os.path.join(cb.WORK, f"dctl_{rep.pid}.ndjson")
+            open(p, "w").write(json.dumps(b) + "\n")
+            res = djson(["replay", p])
+            os.remove(p)
+            if not res["violations"]:
+                raise ToolError("replay control: a behaviour whose expected published bound was altered by 1 ns replayed without complaint")
+            rep.notes.append("replay control: a behaviour of the cover with one expected published bound altered by 1 ns is reported by the harness, as it must")
+            return
+    raise ToolError("replay control: no behaviour with a measured publication in the cover")
+
+
 def daemon_replay(rep, bfile, props, what, chunk=600, procs=8):
     lines = open(bfile).read().splitlines()
     cdir = cb.workdir(f"dchunks_{rep.pid}")
@@ -131,7 +152,7 @@ MCT = dict(deltas="DeltasT", bounds="BoundsQ", reports="RepQ", phc=True, polls=3
 
 def daemon_common(pid, tier, seed, props, level="model_checking", extra=None):
     rep = Report(pid, tier, seed, level)
-    rep.assumptions = ["time in the model is whole seconds; the replay maps second s to the virtual monotonic instant (5000 + s) s + 123456789 ns",
+    rep.assumptions = ["time in the model is whole seconds; the replay maps second s to the virtual monotonic instant (base + s) s + 123456789 ns, base = 5000, 7 or 600 s of uptime depending on the behaviour",
                        "classification of reports is replayed with reference times >= 1 s away from the 8-interval threshold (real system clock in ref_time.elapsed())",
                        "A4: exhaustive for <= 3 polls, <= 2-3 scheduling delays from {1,4,5(,6,994,1000)} s, <= 2 starts, 9 representative reports"]
     rep.rule = "behaviours = maximal paths of the TLC transition cover of Daemon.tla (every poll outcome x PHC outcome x delay position); distinct by content hash"
@@ -145,6 +166,8 @@ def daemon_common(pid, tier, seed, props, level="model_checking", extra=None):
     for name in (("phc", "nophc", "seq3") if tier == "quick" else ("phc", "nophc_t", "seq3")):
         b, n = daemon_cover(rep, name, COVERS[name])
         drifts += daemon_replay(rep, b, props, f"Daemon cover {name}")
+        if pid == "C08" and name == "nophc":
+            replay_control(rep, b)
     if extra:
         extra(rep)
     rc = rep.finish()
